@@ -32,9 +32,10 @@ def hc(G, n):
 
 
 def is_new_h(R, n):
-    """the attributes h_to_explicit gives a hydrogen node it creates (typesGH aside)"""
+    """the attributes h_to_explicit gives a hydrogen node it creates"""
     return R.nodes[n].get('element') == 'H' and R.nodes[n].get('hcount') == 0 and R.nodes[n].get('charge') == 0 \
-        and R.nodes[n].get('aromatic') == False and R.nodes[n].get('atom_map') == 0  # noqa: E712
+        and R.nodes[n].get('aromatic') == False and R.nodes[n].get('atom_map') == 0 \
+        and R.nodes[n].get('typesGH') == (("H", False, 0, 0, []), ("H", False, 0, 0, []))  # noqa: E712
 
 
 def single_bond(R, u, v):
